@@ -283,6 +283,10 @@ class ClipSim:
                         op['geom'] = gen_geometry(rng, world)
                         op['buffer'] = rng.choice([0, 0, 1, 2])
                     ops.append(op)
+                    names_ = [v['name'] for v in world['vars']]
+                    if len(names_) >= 2 and rng.random() < 0.2:
+                        # the caller clips only some of the variables (e.g. one variable of next month's file)
+                        op['only_vars'] = sorted(rng.sample(names_, rng.randint(1, len(names_) - 1)))
                     if li > 0 and used_works and rng.random() < 0.3:
                         # the caller's scratch directory from an earlier process, with whatever that run left behind
                         op['work_reuse'] = rng.choice(used_works)
@@ -418,6 +422,10 @@ class ClipSim:
                     out.stats[f"fault.{payload['seam']}.{payload['kind']}"] += 1
                 elif kind == 'probe':
                     out.stats[f'probe.{payload["name"]}'] += 1
+                elif kind == 'input_mutated':
+                    out.violate('C09', 'input-geometry-mutated', None,
+                                f"after {payload['op']} (op {payload['k']}) the input dataset's own geometry variables {payload['names']} "
+                                f"no longer hold the values they came with: every dataset derived from it from now on has another geometry")
                 elif kind == 'dask':
                     out.stats['dask_tasks'] += payload['executed']
                     out.stats['dask_reordered'] += payload['reordered']
@@ -520,7 +528,7 @@ class ClipSim:
         elif name in ('apply', 'clip'):
             mask_obs = obs.get('sel') if name == 'clip' else model['masks'].get(op['mask'])
             model['res'][op['res']] = {'kind': 'clip', 'variant': op['variant'], 'mask_obs': mask_obs, 'parent': None,
-                                       'pre': obs.get('pre'), 'work_dropped': False, 'space': None, 'input_space': None}
+                                       'only_vars': op.get('only_vars'), 'pre': obs.get('pre'), 'work_dropped': False, 'space': None, 'input_space': None}
             if obs.get('ds_after_fault') is not None:
                 out.stats['probe.result_returned_despite_fault_judged'] += 1
                 self._judge_result(out, world, model['res'][op['res']], obs['ds_after_fault'], f'{op["res"]} (returned although a fault was injected)', judged)
@@ -576,6 +584,8 @@ class ClipSim:
             return
         if r['kind'] == 'clip':
             space = self._space_for(world, r['variant'])
+            if r.get('only_vars') is not None:
+                space.vars = {n: v for n, v in space.vars.items() if n in r['only_vars']}
         else:
             space = r.get('input_space')
             if space is None:
@@ -589,7 +599,7 @@ class ClipSim:
             return
         c08, c09, new = clip_oracle.judge_clip(space, sel, ds_obs, label=label)
         if r['kind'] == 'clip' and r.get('pre'):
-            c08 += clip_oracle.judge_passthrough(space, r['pre'], ds_obs, label)
+            c08 += clip_oracle.judge_passthrough(space, r['pre'], ds_obs, label, new)
         want_cls = worldgen.CONV_CLASS[world.conv]
         conv = ds_obs.get('convention')
         if isinstance(conv, dict):
@@ -722,11 +732,32 @@ def _clip_lifetime(ctx, plan, li, scratch, acked_files=()):
     masks, results, work_of, dropped = {}, {}, {}, set()
     datasets = {}
 
+    geom_base = {}
+    reported_mutation = False
+
     def dataset(variant):
         if variant not in datasets:
             datasets[variant] = common.open_world(world, scratch, variant, raw={'to_netcdf': raw['to_netcdf'], 'open_dataset': raw['open_dataset']},
                                                   tag='input')
+            # the geometry as the dataset came: a private copy taken before emsarray has looked at anything
+            ds_ = datasets[variant]
+            geom_base[variant] = {n: observe.observe_variable(ds_.variables[n]) for n in world.geometry_names() if n in ds_.variables}
+            for n, ov_ in geom_base[variant].items():
+                ov_['values'] = numpy.array(ov_['values'], copy=True)
         return datasets[variant]
+
+    def mutated_inputs():
+        bad = []
+        for variant, base in geom_base.items():
+            ds_ = datasets[variant]
+            for n, ov_ in base.items():
+                if n not in ds_.variables:
+                    bad.append(n)
+                    continue
+                now = numpy.asarray(ds_.variables[n].values)
+                if now.shape != ov_['values'].shape or not common.arrays_equal_nan(now, ov_['values']):
+                    bad.append(n)
+        return sorted(set(bad))
 
     def workdir(name, op=None):
         if op is not None and op.get('work_reuse'):
@@ -788,7 +819,13 @@ def _clip_lifetime(ctx, plan, li, scratch, acked_files=()):
                 obs['sel'] = observe_mask(mask)
             elif name in ('apply', 'clip'):
                 ds = dataset(op['variant'])
+                if op.get('only_vars') is not None:
+                    ds = ds.drop_vars([v['name'] for v in world.spec['vars'] if v['name'] not in op['only_vars']])
+                    ctx.emit('probe', name='subset_of_variables_clipped')
                 obs['pre'] = observe.observe_dataset(ds, convention=False)
+                for n_, ov_ in geom_base[op['variant']].items():
+                    if n_ in obs['pre']['vars']:
+                        obs['pre']['vars'][n_] = ov_      # judged against the geometry as it came, not as it is by now
                 if name == 'clip':
                     try:
                         obs['sel'] = observe_mask(ds.ems.make_clip_mask(geom_of(op), buffer=op['buffer']))
@@ -864,7 +901,7 @@ def _clip_lifetime(ctx, plan, li, scratch, acked_files=()):
                 src = dataset(op['variant']) if op['src'] is None else results[op['src']]
                 extra['work_dropped'] = op['src'] in dropped
                 obs['src'] = observe.observe_dataset(src, polygons=True)
-                sub = src.ems.select_variables(op['names'])
+                sub = src.ems.select_variables([n_ for n_ in op['names'] if n_ in src.variables])
                 obs['ds'] = observe.observe_dataset(sub, polygons=True)
             acked = True
         except Exception as e:
@@ -879,6 +916,11 @@ def _clip_lifetime(ctx, plan, li, scratch, acked_files=()):
             except Exception as e:
                 obs['ds_after_fault_error'] = observe.exc_info(e)
         ctx.observe(f'op{k}', obs)
+        if not reported_mutation:
+            bad = mutated_inputs()
+            if bad:
+                reported_mutation = True
+                ctx.emit('input_mutated', k=k, op=name, names=bad)
         ctx.emit('op_done', k=k, op=name, acked=acked, fired=fired, unfired=[(f['seam'], f['kind']) for f in unfired],
                  crossings={s: (c if s != 'dask' else min(c, 9)) for s, c in sorted(counts.items())})
     if lt['end'] == 'crash_after_ack':
